@@ -378,6 +378,7 @@ def rule_cost_cascade(ctx):
 
 
 def rule_drop_table(ctx):
+    from ppsa.astutil import dotted
     R = "DROP-TABLE"
     ctx.rule(R, "every call of drop_trafos whose index comes from a table variable (net[elm], net[element_type]) that may be 'trafo3w' passes "
                 "table=<that variable>: drop_trafos defaults to the two-winding table, so a three-winding index would drop the wrong rows")
@@ -392,17 +393,12 @@ def rule_drop_table(ctx):
                     kw = {k.arg: ast.unparse(k.value) for k in c.keywords if k.arg}
                     tabvars = {x.slice.id for x in ast.walk(c.args[1]) if isinstance(x, ast.Subscript) and isinstance(x.value, ast.Name)
                                and x.value.id == "net" and isinstance(x.slice, ast.Name)}
-                    # index variables named by an explicit table are fine; an index taken from net[<var>] needs table=<var>
                     need = next(iter(tabvars)) if tabvars else None
-                    if need is None and "table" not in kw:
-                        # the enclosing condition tells whether trafo3w can reach this call
-                        need = "?" if "trafo3w" in ast.unparse(fi.node) and "table" not in kw and any(
-                            isinstance(p, ast.If) and "'trafo' in" in ast.unparse(p.test).replace('"', "'") and any(c is y for y in ast.walk(p)) for p in ast.walk(fi.node)) else None
-                    ok = need is None or kw.get("table") == need or (need == "?" and "table" in kw)
-                    ctx.ob(R, f"{mn}::{fi.qualname}::drop_trafos@{c.lineno - fi.node.lineno}", ok,
+                    ok = need is None or kw.get("table") == need
+                    ctx.ob(R, f"{mn}::{fi.qualname}::drop_trafos#{n}", ok,
                            f"drop_trafos(..., table={kw.get('table')})" if ok else
-                           f": the index comes from net[{need}] but no table is passed - for trafo3w the two-winding transformers "
-                           "with these indices are dropped", fi.loc(c))
+                           f"'{ast.unparse(c)[:90]}': the index comes from net[{need}] but table={need} is not passed - for trafo3w the two-winding "
+                           "transformers with these indices are dropped", fi.loc(c))
     if n < 4:
         ctx.fail(f"DROP-TABLE: only {n} drop_trafos calls found (confirmed: 6)")
 
